@@ -36,9 +36,14 @@ theorem cpool_accept (t : Spec.St) (a : ASt) (l isz : Nat) (bytes : String) (fr 
   have hlt : l < t.f.labelNodes.length := by rw [fr.nLabels]; exact hl
   have h1'' : t.f.labelNodes[l] = some n := by
     simpa [List.getD_eq_getElem?_getD, List.getElem?_eq_getElem hlt] using h1
+  have hnc : ∀ X : Node, (((t.f.nodes ++ [X])[n]?).getD (Node.comment "?")).isCpool = false := by
+    intro X
+    have h3' := h3
+    simp only [nodeAt, List.getD_eq_getElem?_getD] at h3'
+    rw [List.getElem?_append_left h2, h3']; rfl
   constructor
   · simp only [Spec.run, cpoolSeq, List.foldl_cons, List.foldl_nil, spec_step_state]
-    simp [front, Front.newNode, hp, hv, h1, h1', h1'', hact, hact2, Front.labelValid, fr.nLabels, hl]
+    simp [front, Front.newNode, hp, hv, h1, h1', h1'', hact, hact2, Front.labelValid, fr.nLabels, hl, hnc]
   · simp [arun, cpoolSeq, astep, ASt.emit, hp, hl, hbc, hb]
 
 theorem cpool_reject (t : Spec.St) (a : ASt) (l isz : Nat) (bytes : String) (fr : FRel t a)
@@ -106,6 +111,7 @@ theorem J_step (t : Spec.St) (a : ASt) (op : Op) (hJ : J t a) (hA : Adm a op) : 
   | edelta l b s => exact J_step0 t a _ hJ hA
   | comment c => exact J_step0 t a _ hJ hA
   | «section» s => exact J_step0 t a _ hJ hA
+  | gconst z b => exact J_step0 t a _ hJ hA
   | cursor n => exact J_step0 t a _ hJ hA
   | remove n => exact J_step0 t a _ hJ hA
   | removerange x y => exact J_step0 t a _ hJ hA
